@@ -4,7 +4,7 @@ from .. import forest as FO
 
 ID = "C15"
 LEAN_MODULE = "Ucfg.Props.C15"
-LEVEL_TEXT = 'Identity-level theorems. THE INVARIANT OVER HISTORIES: WP (every dictionary entry / list element of every node stores that node as its parent and its key / index as its name) holds for the empty heap and is kept by deep copies, fields.append, Merge as a whole under every list policy (merge_keeps_positions: induction over the fuel, a claim per merge function), Set* along whole paths (set_keeps_positions), NewFrom and Merge of source values with embedded configs (newFrom_keeps_positions, mergeSrc_keeps_positions) and therefore by every history of NewFrom, Merge and Set* calls starting from nothing (history_keeps_positions, wp_empty); under WP, Path() of a node reached from a root along stored entries is the list of keys and indices leading to it (wp_path_is_position). Per primitive: storedPath along linked nodes is the actual position; fields.append assigns the next indices; fields.delAt renumbers (the repaired D19); SetValue stores the context; CompareConfigs partitions the key sets and reports no change for equal sets. Merge, Set* and SetChild through whole paths are model functions (mergeH, setPathH, setChildH) the driver runs the histories through; CompareConfigs also under separators other than the dot. PARTIAL: Remove is proved per primitive only (delAt_renumbers), SetChild of an attached config is the known finding D20.'
+LEVEL_TEXT = 'Identity-level theorems. THE INVARIANT OVER HISTORIES: WP (every dictionary entry / list element of every node stores that node as its parent and its key / index as its name) holds for the empty heap and is kept by deep copies, fields.append, Merge as a whole under every list policy (merge_keeps_positions: induction over the fuel, a claim per merge function), Set* along whole paths (set_keeps_positions), NewFrom and Merge of source values with embedded configs (newFrom_keeps_positions, mergeSrc_keeps_positions) and therefore by every history of NewFrom, Merge and Set* calls starting from nothing (history_keeps_positions, wp_empty); under WP, Path() of a node reached from a root along stored entries is the list of keys and indices leading to it (wp_path_is_position). Per primitive: storedPath along linked nodes is the actual position; fields.append assigns the next indices; fields.delAt renumbers (the repaired D19); SetValue stores the context; CompareConfigs partitions the key sets and reports no change for equal sets. Merge, Set* and SetChild through whole paths are model functions (mergeH, setPathH, setChildH) the driver runs the histories through; CompareConfigs also under separators other than the dot. Remove keeps WP as single steps (remove_name_keeps_positions, remove_index_keeps_positions - the latter for lists whose nodes are listed once). PARTIAL: the side condition of Remove is not carried through histories; SetChild of an attached config is the known finding D20.'
 CORRESPONDENCE = ("Model/Forest.lean (heap of nodes with stored contexts: cpy, appendCpy, setAt, delAt, SetValue, attach, storedPath) composed by "
                   "Driver/ForestDrv.lean ~ histories over several configs dumped after every step through VerifFingerprint (build tag verif): node "
                   "identities up to renaming, stored parents and names, values, Path(), Parent()")
